@@ -469,6 +469,8 @@ type zzDA struct {
 	offered  [][][]byte
 	accepted []zzAccepted
 	height   uint64
+	// honourCtx: like every network client, a call made with a cancelled context fails with the context's error
+	honourCtx bool
 }
 
 func zzDAAny(pfx string, maxPrefix int) zzDAAnswer {
@@ -505,6 +507,9 @@ func (d *zzDA) accept(blobs [][]byte, n int) []coreda.ID {
 }
 
 func (d *zzDA) SubmitWithOptions(ctx context.Context, blobs []coreda.Blob, gasPrice float64, ns []byte, opts []byte) ([]coreda.ID, error) {
+	if d.honourCtx && ctx.Err() != nil {
+		return nil, ctx.Err()
+	}
 	d.offered = append(d.offered, blobs)
 	a := zzDAAnswer{}
 	if d.calls < len(d.script) {
